@@ -15,6 +15,8 @@ package executor
 // What a transaction "key=value" writes: the key and the value, as functions of its bytes.
 //@ pred TxKey(c) := dskey(trimSpace(splitPart(strOf(c), "=", 2, 0)))
 //@ pred TxVal(c) := bytesOf(trimSpace(splitPart(strOf(c), "=", 2, 1)))
+// A transaction the executor has to accept: "key=value" with a non-empty key that is not reserved.
+//@ pred WellFormed(c) := splitCount(strOf(c), "=", 2) == 2 && trimSpace(splitPart(strOf(c), "=", 2, 0)) != "" && !Reserved(TxKey(c))
 
 //@ func (k *KVExecutor) SetFinal(ctx, blockHeight) (err)
 //@   property C15
@@ -32,11 +34,18 @@ package executor
 //@   loop 1 invariant [one-key-per-result] len(keys) == iter(len(keys)) || len(keys) == iter(len(keys)) + 1
 
 //@ func (k *KVExecutor) ExecuteTxs(ctx, txs, blockHeight, timestamp, prevStateRoot) (root, maxBytes, err)
-//@   property C15
+//@   property C15 C05:rejects-only-for-cause C04:rejects-only-for-cause
 //@   requires [wiring] k.db != nil
 //@   observe bt := call Batch
 //@   observe cm := call Commit
+//@   observe put := call Put
+//@   observe csr := call computeStateRoot
 //@   modifies durable k.db.kv, durable k.db.kvHas, durable k.db.size
+// re-executing a block is harmless, and so is executing it on whatever the store holds: a block is refused
+// only for a cause that lies in its transactions or in the storage - never because of what is already stored
+// or of the root the caller passes along
+//@   ensures [rejects-only-for-cause] err != nil && (forall j :: 0 <= j && j < len(txs) ==> WellFormed(val(txs[j])))
+//@                       ==> ctxDone(ctx) || (bt && bt.res1 != nil) || (put && put.res0 != nil) || (cm && cm.res0 != nil) || (csr && csr.res1 != nil)
 //@   ensures [atomic-reject] cm.count == 0 ==> k.db.kv == old(k.db.kv) && k.db.kvHas == old(k.db.kvHas)
 //@   ensures [one-commit] cm.count <= 1 && (cm ==> cm.arg0 == bt.res0)
 //@   ensures [commit-failed-no-effect] cm && cm.res0 != nil ==> k.db.kv == old(k.db.kv) && k.db.kvHas == old(k.db.kvHas)
